@@ -36,7 +36,7 @@ RUNTIME_NAMES = frozenset(
     caller _loop_vars _block_vars loop reciter loop_render_func depth
     LoopContext AsyncLoopContext Macro Markup Namespace TemplateNotFound TemplateReference TemplateRuntimeError
     Undefined auto_aiter auto_await escape identity internalcode markup_join str_join
-    str getattr isinstance len dict tuple list iter range
+    str getattr isinstance len dict tuple list iter range slice
     macro unused root fiter
     """.split()
 )
@@ -119,7 +119,8 @@ class _Walk:
             elif isinstance(n, ast.Subscript):
                 self.stats["subscript"] += 1
                 if self.tainted(n.value):
-                    if isinstance(n.slice, ast.Slice):
+                    if isinstance(n.slice, ast.Slice) or (
+                            isinstance(n.slice, ast.Call) and dotted(n.slice.func) == "slice"):
                         self.stats["slice_exempt"] += 1  # documented: slices bypass getitem
                     elif (isinstance(n.ctx, ast.Store) and isinstance(n.value, ast.Name)
                           and n.value.id in self.ns_guarded and isinstance(n.slice, ast.Constant)
